@@ -666,13 +666,22 @@ def r12(ctx):
     cut_behind_accepted(ctx, P, "C02.R12")
 
 
-RULES = [r1, r2, r3, r4, r5, r6, r7, r8, r8b, r8c, r9, r10, r11, r12]
+def r13(ctx):
+    """'every call that had already returned stays applied': what a returned call left only in the
+    log is re-applied in full when the core is opened — every field of an entry reaches its consumer,
+    and whether a consumer runs depends only on the field it consumes (the replay clauses of C01.R2;
+    a block a replica fetched without an upgrade is an entry with tree nodes and no tree upgrade)"""
+    from . import c01
+    c01.r2(ctx, P, "C02.R13")
+
+
+RULES = [r1, r2, r3, r4, r5, r6, r7, r8, r8b, r8c, r9, r10, r11, r12, r13]
 
 EXPLANATION = ("C02 (crash recovers to before-or-after): decides the write-ahead ordering premises on the CFG of every mutating entry point — "
                "data write before oplog entry, entry write ?-checked before any in-memory commit, commits before the periodic flush (append R1, proof apply R2), "
                "drop entry before destructive delete (clear R3), bitfield -> tree -> header order of the flush (R4), header content before truncate and the "
                "order [header write, truncate, header write] of a trace-clearing flush — every header write flips the current header bit, so the log is emptied between the two (R5), in-order one-mutation-per-info issue loop of Storage::flush_infos (R6), stale entries gated by "
-               "the header bit on open (R7) and the log tail offset restored on open, counting every accepted entry to the end of its payload (R8), and the StoreInfo constructor table agreeing with the dispatch of Storage::flush_infos (R9); replay is idempotent against a partially flushed bitfield (R10); append / clear placement (R11 = C01.R4); Oplog::open returns a truncate of the log to 8192 + the length of the accepted entries on every path on which the file can be longer than they are, so that ignored entries of an earlier header generation cannot become current again two header writes later (R12).")
+               "the header bit on open (R7) and the log tail offset restored on open, counting every accepted entry to the end of its payload (R8), and the StoreInfo constructor table agreeing with the dispatch of Storage::flush_infos (R9); replay is idempotent against a partially flushed bitfield (R10); append / clear placement (R11 = C01.R4); Oplog::open returns a truncate of the log to 8192 + the length of the accepted entries on every path on which the file can be longer than they are, so that ignored entries of an earlier header generation cannot become current again two header writes later (R12); replay completeness — every entry field reaches its consumer, unconditionally on the other fields (R13 = C01.R2).")
 NOT_DECIDED = ("idempotence of replay over partially flushed bitfield/tree; correctness of the header-bit rotation table; atomicity of backend operations; "
                "which state a given crash point recovers to.")
 ASSUMPTIONS = ["each RandomAccess operation is atomic and persisted in issue order (stated by the property)", "MIR built by rustc reflects the source semantics"]
